@@ -48,6 +48,14 @@ int *ilog_table_begin = NULL;
 static int init_counter = 0;
 static pthread_mutex_t init_mutex = PTHREAD_MUTEX_INITIALIZER;
 
+#ifdef LIBERASURECODE_VERIF
+/* verification hook: a scheduler callback invoked at table set-up yield points */
+void (*rs_galois_verif_yield)(int point) = NULL;
+#define VERIF_YIELD(point) do { if (rs_galois_verif_yield) rs_galois_verif_yield(point); } while (0)
+#else
+#define VERIF_YIELD(point) do { } while (0)
+#endif
+
 void rs_galois_init_tables(void)
 {
   pthread_mutex_lock(&init_mutex);
@@ -56,6 +64,7 @@ void rs_galois_init_tables(void)
     pthread_mutex_unlock(&init_mutex);
     return;
   }
+  VERIF_YIELD(10);
   log_table = (int*)malloc(sizeof(int)*FIELD_SIZE);
   ilog_table_begin = (int*)malloc(sizeof(int)*FIELD_SIZE*3);
   int i = 0;
@@ -85,6 +94,7 @@ void rs_galois_deinit_tables(void)
   } else if (init_counter > 0) {
     /* still at least one desc using it */
   } else {
+    VERIF_YIELD(11);
     free(log_table);
     log_table = NULL;
     free(ilog_table_begin);
